@@ -87,6 +87,9 @@ fn main() {
             // whole-workload output digest for cross-process determinism (C05)
             let seed: u64 = args.get(2).and_then(|s| s.parse().ok()).unwrap_or(1);
             let threads: usize = args.get(3).and_then(|s| s.parse().ok()).unwrap_or(1);
+            if args.get(4).map(|s| s == "decoys").unwrap_or(false) {
+                tamon::props::c05::run_decoys(seed);
+            }
             println!("{:#018x}", tamon::props::c05::workload_digest(seed, threads));
         }
         "replay" => {
